@@ -80,11 +80,25 @@ def assignment_table(soc, config):
 
 
 def write_config(path, config):
-    lines = ["CONFIG_SOMETHING_ELSE=y", "SB_CONFIG_SUIT_ENVELOPE=y"]
-    for role, (v, c) in config:
+    """A build configuration as the build system writes it: header comments, blank lines, unrelated entries of every value type,
+    `# X is not set` lines - and commented-out MPI entries (for configured roles, after the active entry and with other values; for one
+    role that is not configured at all), which are comments and assign nothing."""
+    lines = ["#", "# Automatically generated file; DO NOT EDIT.", "# sysbuild", "#", "", "CONFIG_SOMETHING_ELSE=y", "# SB_CONFIG_SUIT_MPI_GENERATE is not set",
+             'SB_CONFIG_BOARD="nrf54h20dk"', "SB_CONFIG_PARTITION_MANAGER=y", 'SB_CONFIG_NOTE="a=b # not a comment"', "SB_CONFIG_SUIT_ENVELOPE=y",
+             "SB_CONFIG_SUIT_ENVELOPE_SEQUENCE_NUM=1", "SB_CONFIG_FLASH_BASE=0xe000000", ""]
+    configured = {role for role, _ in config}
+    for i, (role, (v, c)) in enumerate(config):
         k = CONFIG_KEY[role]
         lines.append(f'SB_CONFIG_SUIT_MPI_{k}_VENDOR_NAME="{v}"')
         lines.append(f'SB_CONFIG_SUIT_MPI_{k}_CLASS_NAME="{c}"')
+        if i % 2 == 0:
+            lines.append(f'# SB_CONFIG_SUIT_MPI_{k}_VENDOR_NAME="old-{v}"')
+            lines.append(f'#SB_CONFIG_SUIT_MPI_{k}_CLASS_NAME="old-{c}"')
+    spare = [r for r in ROLES if r not in configured]
+    if config and spare:
+        k = CONFIG_KEY[spare[len(config) % len(spare)]]
+        v, c = config[0][1]
+        lines += ["", "# disabled:", f'# SB_CONFIG_SUIT_MPI_{k}_VENDOR_NAME="{v}x"', f'# SB_CONFIG_SUIT_MPI_{k}_CLASS_NAME="{c}"']
     with open(path, "w", encoding="utf-8") as fh:
         fh.write("\n".join(lines) + "\n")
 
